@@ -33,6 +33,13 @@ func (m *K2PModel) Distance(seq1 []uint8, seq2 []uint8, weights []float64) (floa
 
 	trS, trV, _, _, total := countMutations(seq1, seq2, m.selectedSites, weights)
 	trS, trV = trS/total, trV/total
+	if trS == 0 && trV == 0 {
+		return 0, nil
+	}
+	if 1.-2.*trS-trV < 0 || 1.-2.*trV < 0 {
+		// Saturated: the distance is undefined (also with the gamma correction)
+		return math.NaN(), nil
+	}
 
 	if m.gamma {
 		dist = m.alpha * (.5*math.Pow(1.-2.*trS-trV, -1./m.alpha) + .25*math.Pow(1.-2.*trV, -1./m.alpha) - .75)
